@@ -359,6 +359,10 @@ func cmdCheck(prop, tier string) int {
 		ev.add(r)
 		if r.result != nil && r.result.Status == "violation" {
 			viols = append(viols, r)
+			for _, m := range r.result.More {
+				ev.classes[m.Class]++
+				viols = append(viols, &indexed{index: r.index, result: m, gcase: m.Executed})
+			}
 		}
 	}
 	ev.cov["index_range"] = []int{0, covered}
@@ -410,10 +414,41 @@ func cmdCheck(prop, tier string) int {
 	for _, l := range knownLines {
 		fmt.Println(l)
 	}
-	if unknown > 0 && exit == 0 {
+	if unknown > 0 && exit == 0 && maxReport > 0 {
 		// violations existed but none could be reported (should not happen)
 		fmt.Fprintln(os.Stderr, "infrastructure: violations found but none reproduced during reporting")
 		return 2
+	}
+	if unknown > 0 {
+		exit = 1
+	}
+	if len(ev.classes) > 0 {
+		type kv struct {
+			k string
+			v int
+		}
+		var cl []kv
+		for k, v := range ev.classes {
+			cl = append(cl, kv{k, v})
+		}
+		sort.Slice(cl, func(i, j int) bool {
+			if cl[i].v != cl[j].v {
+				return cl[i].v > cl[j].v
+			}
+			return cl[i].k < cl[j].k
+		})
+		fmt.Println("violation classes seen in this batch (runs):")
+		for i, c := range cl {
+			if i >= 60 {
+				fmt.Printf("  ... and %d more\n", len(cl)-i)
+				break
+			}
+			mark := "new"
+			if matchKnown(known, &Result{Class: c.k}) != nil {
+				mark = "known"
+			}
+			fmt.Printf("  %6d  %-5s %s\n", c.v, mark, c.k)
+		}
 	}
 	ev.violations = unknown
 	ev.knownLines = knownLines
